@@ -1,5 +1,5 @@
 (* C15 property theorems: statements + `exact lemma` only. *)
-From CJ Require Import Common.Base C15.Model C15.Proofs.
+From CJ Require Import Common.Base C15.Model C15.Proofs C15.ModelName C15.ProofsName.
 
 Theorem C15_request_format_roundtrip :
   forall p e, add_request_format p = Some e -> remove_request_format e = Some p.
@@ -29,3 +29,51 @@ Print Assumptions C15_response_format_rejects_long.
 Theorem C15_txt_roundtrip : forall p, dec_txt (enc_txt p) = Some p.
 Proof. exact txt_roundtrip. Qed.
 Print Assumptions C15_txt_roundtrip.
+
+(* ---- DNS names ---- *)
+Theorem C15_new_name_accepts_exactly :
+  forall n n', new_name n = Ok n' <-> n' = n /\ Forall (fun l => 1 <= blen l <= 63) n /\ name_wire_len n <= 255.
+Proof. exact new_name_ok. Qed.
+Print Assumptions C15_new_name_accepts_exactly.
+
+Theorem C15_new_name_rejects :
+  forall n, ~ (Forall (fun l => 1 <= blen l <= 63) n /\ name_wire_len n <= 255) -> exists e, new_name n = Err e.
+Proof. exact new_name_rejects. Qed.
+Print Assumptions C15_new_name_rejects.
+
+Theorem C15_name_roundtrip :
+  forall n n', new_name n = Ok n' -> read_name (fst (write_name [] 0 n')) 0 = Ok (n, name_wire_len n).
+Proof. exact name_roundtrip. Qed.
+Print Assumptions C15_name_roundtrip.
+
+Theorem C15_name_read_in_context :
+  forall pre post n, name_ok n = true ->
+    read_name (pre ++ name_wire n ++ post) (blen pre) = Ok (n, blen pre + name_wire_len n).
+Proof. exact read_name_wire. Qed.
+Print Assumptions C15_name_read_in_context.
+
+Theorem C15_chunks_concat : forall n p, 0 < n -> concat (chunks n p) = p.
+Proof. exact chunks_concat. Qed.
+Print Assumptions C15_chunks_concat.
+
+Theorem C15_labels_ok : forall p, Forall (fun c => 1 <= blen c <= 63) (chunks 63 p).
+Proof. exact chunks_labels_ok. Qed.
+Print Assumptions C15_labels_ok.
+
+Theorem C15_chunks_greedy : forall n p, 0 < n -> all_but_last_full n (chunks n p).
+Proof. exact chunks_greedy. Qed.
+Print Assumptions C15_chunks_greedy.
+
+Theorem C15_request_name_roundtrip :
+  forall (b32enc : bytes -> bytes) (b32dec : bytes -> option bytes),
+    (forall p, wf_bytes p = true -> b32dec (upper (lower (b32enc p))) = Some p) ->
+    forall dom p nm, wf_bytes p = true -> request_name (fun q => lower (b32enc q)) dom p = Ok nm -> name_payload b32dec dom nm = Some p.
+Proof. exact request_name_roundtrip. Qed.
+Print Assumptions C15_request_name_roundtrip.
+
+Theorem C15_request_name_error_iff :
+  forall (b32enc : bytes -> bytes) dom p,
+    (exists e, request_name (fun q => lower (b32enc q)) dom p = Err e) <->
+    ~ (Forall (fun l => 1 <= blen l <= 63) dom /\ name_wire_len (chunks 63 (lower (b32enc p)) ++ dom) <= 255).
+Proof. exact request_name_error_iff. Qed.
+Print Assumptions C15_request_name_error_iff.
